@@ -2,8 +2,8 @@ SPECIFICATION HSpec
 CONSTANTS
   PercentExact = TRUE
   NewlineByWrites = TRUE
-  MoveUpAfterFirst = TRUE
-  FinishShowsStep = TRUE
+  MoveUpAfterFirst = FALSE
+  FinishDrawsNoMax = TRUE
   ClearCountsRows = TRUE
   MCModes <- AllModes
   MCWidths <- W1
@@ -15,7 +15,7 @@ CONSTANTS
   AdvArgs <- AdvQ
   SetArgs <- SetQ
   Msgs <- NoMsgs
-  Depth = 5
+  Depth = 4
 VIEW HView
 PROPERTY PFrameShape
 PROPERTY PBarWidth
@@ -24,8 +24,8 @@ PROPERTY PPercent
 PROPERTY PThrottle
 PROPERTY PMaxDraws
 PROPERTY PFinish
+PROPERTY PQuiet
+PROPERTY PPlainOps
 INVARIANT AnsiLine
 INVARIANT PlainOwnLine
-PROPERTY PQuiet
 INVARIANT TermOK
-PROPERTY PPlainOps
